@@ -9,7 +9,7 @@ GROUP = dict(
     name='fmt',
     theory=['base.rs'],
     rlimit=100,
-    uses='use core::cmp::Ordering;',
+    uses='use core::cmp::Ordering;\nuse core::slice;',
     canary='    axiom_string_from(); broadcast use axiom_ascii_to_lower;',
     units=[_c.PURL_FIELD, _c.PARSE_ERROR, _c.QUALIFIER_KEY, _c.QUALIFIERS, _c.PURL_PARTS,
            dict(id='theory.qualkeys', kind='raw', text=_c.theory_text('qualkeys.rs')),
@@ -23,6 +23,9 @@ GROUP = dict(
            dict(id='theory.fmt', kind='raw', text=_c.theory_text('fmt.rs')),
            _c.contract_only('lib_shape', 'U-vtype.is_valid_package_type'),
            _c.contract_only('qual', 'U-qmap.is_empty'),
+           _c.unit_of('qual', 'T.Iter'), _c.unit_of('qual', 'spec.Iter'),
+           _c.contract_only('qual', 'U-qmap.into_iter'),
+           _c.contract_only('qual', 'U-qmap.Iter.next'),
            _c.contract_only('purl', 'U-acc.package_type'),
            _c.contract_only('purl', 'U-acc.namespace'),
            _c.contract_only('purl', 'U-acc.name'),
@@ -39,30 +42,36 @@ GROUP = dict(
                 rw=[('R2', r'\bself\b', 'this', '+'),
                     ('R4', r'panic!\("Invalid package type \{:\?\}", &\*package_type\);', 'x_panic();', '*'),
                     ('R4', '@write', ''),
-                    ('R5', r'for \(k, v\) in &this\.parts\.qualifiers', 'let ghost qs = this.parts.qualifiers.qualifiers@;\n            let ghost base = f.out();\n            proof { assert(qs.take(0) =~= Seq::<(QualifierKey, SmallString)>::empty()); assert(base + quals_text(qs.take(0)) =~= base); }\n            for (k, v) in it: x_qualifier_pairs(&this.parts.qualifiers)', 1),
+                    # R5: `for` over purl's own iterator written out as its definition, so that Iter::next is a verified callee
+                    ('R5', '@for_next', r'for \(k, v\) in &this\.parts\.qualifiers'),
                     ],
-                loops={0: '''
-                invariant
-                    it.seq().len() == qs.len(), qs == this.parts.qualifiers.qualifiers@,
-                    forall|i: int| 0 <= i < qs.len() ==> (#[trigger] it.seq()[i]).0.0@ == qs[i].0.0@ && it.seq()[i].1@ == qs[i].1@,
-                    prefix == (if it.index@ == 0 { '?' } else { '&' }),
-                    f.out() == base + quals_text(qs.take(it.index@ as int)),
-                    it.index@ == qs.len() ==> f.out() == base + quals_text(qs),
-                ensures f.out() == base + quals_text(qs),
-'''},
                 begin='''        let ghost start = f.out();
         let ghost ty = this.package_type.type_text();
         let ghost p = this.parts;
         proof { reveal_strlit("="); assert("="@ =~= seq!['=']); }''',
-                hints=[(r"prefix = '&';", 'after', '''                proof {
-                    assert(qs.take(it.index@ + 1).drop_last() == qs.take(it.index@ as int));
-                    assert(qs.take(it.index@ + 1).last() == qs[it.index@ as int]);
-                    let kv = qs[it.index@ as int];
-                    assert(it.seq()[it.index@ as int].0.0@ == kv.0.0@ && it.seq()[it.index@ as int].1@ == kv.1@);
+                loops={0: '''
+                invariant
+                    qs == this.parts.qualifiers.qualifiers@,
+                    0 <= gi <= qs.len(), iter_.rem().len() == qs.len() - gi,
+                    forall|j: int| 0 <= j < iter_.rem().len() ==> *(#[trigger] iter_.rem()[j]) == qs[gi + j],
+                    prefix == (if gi == 0 { '?' } else { '&' }),
+                    f.out() == base + quals_text(qs.take(gi)),
+                    gi == qs.len() ==> f.out() == base + quals_text(qs),
+                decreases qs.len() - gi,
+'''},
+                hints=[(r'let mut iter_ = \(&this\.parts\.qualifiers\)\.into_iter\(\);', 'after', '''            let ghost qs = this.parts.qualifiers.qualifiers@;
+            let ghost base = f.out();
+            let ghost mut gi: int = 0;
+            proof { assert(qs.take(0) =~= Seq::<(QualifierKey, SmallString)>::empty()); assert(base + quals_text(qs.take(0)) =~= base); }'''),
+                       (r"prefix = '&';", 'after', '''                proof {
+                    assert(qs.take(gi + 1).drop_last() == qs.take(gi));
+                    assert(qs.take(gi + 1).last() == qs[gi]);
+                    let kv = qs[gi];
                     assert(k.0@ == kv.0.0@ && v@ == kv.1@);
                     assert(f.out() =~= pre_out + seq![pfx] + enc(SetId::Query, kv.0.0@) + seq!['='] + enc(SetId::Query, kv.1@));
-                    assert(f.out() =~= base + quals_text(qs.take(it.index@ + 1)));
-                    if it.index@ + 1 == qs.len() { assert(qs.take(it.index@ + 1) =~= qs); }
+                    assert(f.out() =~= base + quals_text(qs.take(gi + 1)));
+                    if gi + 1 == qs.len() { assert(qs.take(gi + 1) =~= qs); }
+                    gi = gi + 1;
                 }'''),
                        (r'\{ x_write_display\(f, &prefix\)\?;', 'before', '                let ghost pre_out = f.out();\n                let ghost pfx = prefix;'),
                        (r'if let Some\(namespace\) = this\.namespace\(\)', 'before', '        proof { assert(f.out() =~= start + cs1(ty)); }'),
